@@ -430,10 +430,55 @@ def work_offgrid(job):
     return acc.result()
 
 
+def work_fresh_thread(job):
+    """TEXT ties (and a slice of the slicing functions) evaluated on a thread that never used the library, after the
+    library was first used on this process's main thread: rounding must not depend on per-thread decimal state"""
+    import threading
+    acc = Acc()
+    feval.Evaluator().run('=TEXT(2.5,"0")&LEFT("abc",1)&TEXT(0.125,"0.00")', {})
+    box = {}
+    xs = [0.125, 2.5, 1234.5, 0.045, -2.5, 0.25, 1.005, 0.5, 1.5, -0.5, 12.345, 0.285, 9.9995, 1e22, 2.675, 1000000.5, 1e-7]
+    fs = ['0', '0.0', '0.00', '#,##0', '0,000.0', '0%', '0.0%', '000.000']
+
+    def body():
+        ev = feval.Evaluator()
+        out = []
+        for x in xs:
+            for f in fs:
+                out.append((x, f, ev.run('=TEXT(A1,B1)', {'A1': x, 'B1': f}), fmt_exact(x, f.replace('#,##0', '0,0'))))
+        box['out'] = out
+        box['slices'] = [ev.run(f, {'A1': 2.5, 'B1': 'abcabc'}) for f in ('=LEFT(A1,2)', '=FIND("c",B1,4)', '=SUBSTITUTE(B1,"b","X",2)', '=TRIM("  a  b ")')]
+    t = threading.Thread(target=body)
+    t.start()
+    t.join()
+    for x, f, o, e in box.get('out', []):
+        acc.add('evaluations')
+        acc.add('states')
+        acc.add('distinct_nontrivial')
+        if e is None:
+            continue
+        if f == '#,##0':
+            sign = '-' if e.startswith('-') else ''       # '0,0' pads to two digits, '#,##0' to one
+            e = sign + (e.lstrip('-').lstrip('0').lstrip(',') or '0')
+        if o[0] != 'ok' or o[1] != e:
+            acc.violation(dict(kind='thread', fn='TEXT', verdict='wrong-value', x=x, f=f, observed=jsonable(o[:2]), expected=e),
+                          f'=TEXT({x!r},{f!r}) evaluated on a fresh thread = {o[:2]!r}, exact decimal formatting gives {e!r}')
+    want = [('ok', '2.'), ('ok', 6), ('ok', 'abcaXc'), ('ok', 'a b')]
+    for o, e in zip(box.get('slices', []), want):
+        if o[:2] != e:
+            acc.violation(dict(kind='thread', fn='slices', verdict='wrong-value', observed=jsonable(o[:2]), expected=jsonable(e)),
+                          f'on a fresh thread {o[:2]!r}, expected {e!r}')
+    if 'out' not in box:
+        acc.violation(dict(kind='thread', fn='thread', verdict='raised'), 'the fresh thread died')
+    acc.counts['transitions'] = acc.counts.get('evaluations', 0)
+    return acc.result()
+
+
 def run(ctx):
     m = 64
     ml = 5 if ctx.thorough else 4
     ctx.pmap(work_trim_ws, [(0,)], timeout=1200)
+    ctx.pmap(work_fresh_thread, [(0,)], timeout=600)
     ctx.pmap(work_slicing, [((k + ctx.seed) % m, m, ml) for k in range(m)], timeout=6000)
     ctx.pmap(work_search, [(k, m, ml) for k in range(m)], timeout=6000)
     ctx.pmap(work_numbers, [(0,)], timeout=600)
@@ -445,6 +490,10 @@ def run(ctx):
 
 
 def replay(case):
+    if case['kind'] == 'thread':
+        r = work_fresh_thread((0,))
+        hits = [m for c, m in r['violations'] if c.get('x') == case.get('x') and c.get('f') == case.get('f')]
+        return bool(hits), '\n'.join(hits[:2]) or 'no violation'
     ev = feval.Evaluator()
     if case['kind'] == 'slice':
         o = ev.run(case['formula'], case['env'])
